@@ -44,6 +44,7 @@ package scheduler
 //@ pure prometheus.Gauge.Set Gauge.Set
 
 //@ func Scheduler.runQueue$1 property C16
+//@   requires 0 <= i && i < len(sorted) && 0 <= j && j < len(sorted)
 //@   ensures result == (sorted[i].Container.Priority > sorted[j].Container.Priority)
 
 // One scheduling pass.  A crunch-run process is started only for a container
@@ -63,5 +64,5 @@ package scheduler
 //@   calls ContainerQueue.Unlock#1: requires ctr.State == arvados.ContainerStateLocked && $0 == ctr.UUID
 //@   calls ContainerQueue.Unlock#2: requires ctr.State == arvados.ContainerStateLocked && $0 == ctr.UUID
 //@   calls ContainerQueue.Unlock#2: set lastUnlocked = $0
-//@   loop 4: exhaustive
-//@   at loop 4 back: assert ctr.State == arvados.ContainerStateLocked ==> lastUnlocked == ctr.UUID
+//@   loop 3: exhaustive
+//@   at loop 3 back: assert ctr.State == arvados.ContainerStateLocked ==> lastUnlocked == ctr.UUID
